@@ -39,18 +39,21 @@ class RegWorld:
     config._set_config_is_locked(False)
     config._INTERACTIVE_MODE = False
     self.step = 0
+    # the method's real name rotates: plain, and names that contain the name of its class ("Class.method" is about
+    # the dotted structure of a selector, not about substrings)
+    self.mname = ['meth', 'meth_K', 'Kmeth'][_COUNTER[0] % 3]
     mod = types.ModuleType(self.prefix)       # objects live in the module they are registered under
     src = ('def f(a=1):\n  return a\n'
            'def g(a=1):\n  return a\n'
            'class K:\n'
            '  def __init__(self, a=1):\n    self.a = a\n'
-           '  def meth(self, x=2):\n    return x\n')
+           '  def %s(self, x=2):\n    return x\n' % self.mname)
     exec(src, mod.__dict__)  # pylint: disable=exec-used
-    for o in (mod.f, mod.g, mod.K, mod.K.meth):
+    for o in (mod.f, mod.g, mod.K, getattr(mod.K, self.mname)):
       o.__module__ = mod.__name__
     sys.modules[mod.__name__] = mod
     self.mod = mod
-    self.objs = {'f': mod.f, 'g': mod.g, 'K': mod.K, 'meth': mod.K.meth}
+    self.objs = {'f': mod.f, 'g': mod.g, 'K': mod.K, 'meth': getattr(mod.K, self.mname)}
     self.eq_callables = _COUNTER[0] % 3 == 0
     if self.eq_callables:
       # every third world: f and g are distinct callables that compare (and hash) equal, like two instances of a
@@ -69,7 +72,18 @@ class RegWorld:
     sys.modules.pop(self.mod.__name__, None)
 
   def real_sel(self, sel):
-    return self.prefix + sel[1:] if sel.startswith('m') else sel
+    sel = self.prefix + sel[1:] if sel.startswith('m') else sel
+    parts = sel.split('.')
+    if parts[-1] == 'meth':
+      parts[-1] = self.mname
+    return '.'.join(parts)
+
+  def spec_sel(self, sel):
+    sel = 'm' + sel[len(self.prefix):] if sel.startswith(self.prefix) else sel
+    parts = sel.split('.')
+    if parts[-1] == self.mname:
+      parts[-1] = 'meth'
+    return '.'.join(parts)
 
   def register(self, q, api):
     gin = self.gin
@@ -134,7 +148,7 @@ class RegWorld:
       if sel in self._before:
         continue
       who = [k for k, v in self.objs.items() if v is c.wrapped]
-      out['m' + sel[len(self.prefix):] if sel.startswith(self.prefix) else sel] = who[0] if who else '?'
+      out[self.spec_sel(sel)] = who[0] if who else '?'
     return dict(reg=out, interactive=bool(config._INTERACTIVE_MODE), locked=bool(gin_locked(self.gin)))
 
 
